@@ -95,7 +95,7 @@ def build_cases(repo: str | None = None, full_pairs: bool = False) -> dict:
     uri2pfx = dict(xm.uri2pfx)
     return {"cases": cases, "uri2pfx": uri2pfx, "not_applicable": not_applicable, "no_model": no_model, "unsupported": unsupported,
             "n_tags": ex["n_tags"], "n_classes": ex["n_classes"], "n_decls": ex["n_decls"], "n_class_decls": ex["n_class_decls"],
-            "xsd_files": xm.files}
+            "xsd_files": xm.files, "handwritten_sites": D.handwritten_sites(os.path.join(repo, "src", "pptx"))}
 
 
 def tlc_constants(built: dict) -> dict:
